@@ -86,6 +86,7 @@ def _cfgs(tier):
         dict(lb="pos", ub="fin", W="receptor", K="vector", baseline="vector"),
         dict(lb="neg", ub="fin", W="sample", K="scalar", baseline="scalar"),
         dict(lb="none", ub="fin", W="receptor", K="matrix", baseline="vector"),
+        dict(lb="pos", ub="fin", W="none", K="matrix", baseline="array1"),  # scalar baseline as the estimator stores it (shape (1,))
     ]
     for (nf, ns), var in itertools.product(sizes, variants):
         if var["K"] == "matrix" and nf == 1:
